@@ -6,7 +6,7 @@ pub mod windows;
 
 use blocks::{CachedBlocks, CodeBlock, MemoryLocation};
 use crate::cpu::Registers;
-use crate::decoder::decode;
+use crate::decoder::{can_continue_block, decode};
 use crate::emitter::Emitter;
 use crate::mem::MemoryAreas;
 
@@ -150,8 +150,16 @@ impl CodeCache {
     let mut block_ended = false;
     let mut index = ip;
     while !block_ended {
+      if index > ip && index >= 0x8000 {
+        // ran off the end of the cartridge ROM: that is for the next step to
+        // report, should execution really get there
+        break;
+      }
       let code_slice = self.get_executable_memory_segment(index, mem);
       if code_slice.len() < 1 {
+        break;
+      }
+      if index > ip && !can_continue_block(code_slice) {
         break;
       }
       if available_length - write_cursor < MAX_TRANSLATED_OP_SIZE {
@@ -159,13 +167,6 @@ impl CodeCache {
         return None;
       }
       let (next_op, length, _cycles) = decode(code_slice);
-      if let crate::decoder::ops::Op::Invalid(_) = next_op {
-        if index > ip {
-          // Only complain about an undefined opcode once execution actually
-          // arrives at it: an earlier instruction may leave the block
-          break;
-        }
-      }
       index += length;
       block_ended = next_op.is_block_end();
       if ip < 0x4000 && index >= 0x4000 {
